@@ -36,11 +36,11 @@ func insText(t, d int, blk string) (op, a, b string) {
 		return "dat", "#" + inner, "#" + outer
 	case 1:
 		if d == 0 {
-			return "mov", "a", "1"
+			return "mov", "jink", "1"
 		}
-		return "mov", "a", "2*" + inner + "-" + outer
+		return "mov", "jink", "2*" + inner + "-" + outer
 	case 2:
-		target := "a"
+		target := "jink"
 		if blk != "" {
 			target = blk
 		}
@@ -56,7 +56,7 @@ func insText(t, d int, blk string) (op, a, b string) {
 // forSource renders the program with FOR/ROF blocks.
 func forSource(items []FItem, epilogue string) string {
 	var sb strings.Builder
-	sb.WriteString("n equ 2\na jmp 1\n")
+	sb.WriteString("n equ 2\njink jmp 1 ; rof for i j k\n")
 	var rec func(items []FItem, d int, blk string)
 	rec = func(items []FItem, d int, blk string) {
 		for _, it := range items {
@@ -94,7 +94,7 @@ func forSource(items []FItem, epilogue string) string {
 // ok=false if a labelled block emits nothing (not generated).
 func unroll(items []FItem, epilogue *ref.AIns) (*ref.AProg, int, bool) {
 	p := &ref.AProg{Equs: []ref.AEqu{{Name: "n", Body: []string{"2"}}, {Name: "m", Body: []string{"2"}}}}
-	p.Ins = append(p.Ins, ref.AIns{Labels: []string{"a"}, Op: "jmp", A: operand("", "1")})
+	p.Ins = append(p.Ins, ref.AIns{Labels: []string{"jink"}, Op: "jmp", A: operand("", "1")})
 	expansions := 0
 	ok := true
 	uniq := 0
@@ -338,8 +338,8 @@ func (c *Ctx) RunC08(tier string) {
 			// a label-only line as the last body line of a block that runs once
 			if depthOf[bi] == 0 && old == "1" {
 				b.Tail = true
-				epi := ref.AIns{Op: "jmp", A: operand("", "tail"), B: operand("", "a")}
-				c.checkFor(cp, "jmp tail, a\n", &epi, "label-only line before ROF")
+				epi := ref.AIns{Op: "jmp", A: operand("", "tail"), B: operand("", "jink")}
+				c.checkFor(cp, "jmp tail, jink\n", &epi, "label-only line before ROF")
 				b.Tail = false
 			}
 			// the count from an EQU that is defined between two blocks
